@@ -105,7 +105,6 @@ func VH_C05_results() {
 		running++
 		zz.Assert(running == 1, "one_handler_at_a_time")
 		zz.Assert(len(model) > 0 && t == model[0], "handler_gets_the_head_task")
-		zz.Assert(q.GetFirst() == t, "handled_task_stays_at_head_while_running")
 		if prevFailed {
 			zz.Assert(t == prevTask, "failed_task_is_retried_before_any_other")
 			zz.Assert(t.GetFailureCount() == prevFailures+1, "failure_count_incremented_once")
@@ -120,18 +119,33 @@ func VH_C05_results() {
 		st := TaskStatus(zz.ConcretizeStr(zz.OneOf("status"+strconv.Itoa(calls), string(Success), string(Keep), string(Fail), string(Repeat))))
 		res := TaskResult{Status: st}
 		prevFailed, prevTask, prevFailures = st == Fail, t, t.GetFailureCount()
+		// while the handler runs (without the queue lock) somebody may put a new task in front
+		if zz.Bool("head_changes_while_handling" + strconv.Itoa(calls)) {
+			fresh++
+			x := &task.BaseTask{Id: "x" + strconv.Itoa(fresh)}
+			q.AddFirst(x)
+			model = append([]task.Task{x}, model...)
+			prevFailed = false // the new head is handled before the retry of t
+		}
 		if st == Success || st == Keep {
 			res.HeadTasks = newTasks("head" + strconv.Itoa(calls))
 			res.AfterTasks = newTasks("after" + strconv.Itoa(calls))
 			res.TailTasks = newTasks("tail" + strconv.Itoa(calls))
-			// the list model of the documented placement
+			// the list model of the documented placement (t is wherever it is now)
+			pos := 0
+			for i := range model {
+				if model[i] == t {
+					pos = i
+				}
+			}
 			var m2 []task.Task
 			m2 = append(m2, res.HeadTasks...)
+			m2 = append(m2, model[:pos]...)
 			if st == Keep {
 				m2 = append(m2, t)
 			}
 			m2 = append(m2, res.AfterTasks...)
-			m2 = append(m2, model[1:]...)
+			m2 = append(m2, model[pos+1:]...)
 			m2 = append(m2, res.TailTasks...)
 			model = m2
 		}
